@@ -25,6 +25,13 @@ COMPILE_STMTS = ['return 5', 'break', 'continue', 'nonlocal x', 'yield 1']
 # `raise xdoctest.ExitTestException()`; both stop the doctest at that line without an error: reported PASSED by
 # both front ends (something ran), the rest of the doctest does not run, later doctests still run
 EXIT_KINDS = ['skipcall', 'exitcall']
+# kinds whose outcome depends on something OUTSIDE the doctest text:
+#   useglobal: needs the name G_VERIF = 41, which only `--global-exec` / XDOCTEST_GLOBAL_EXEC provides
+#              (opts['__genv__']); without it the doctest fails with a NameError
+#   modval   : prints a token defined by ITS OWN module (`_modval`); passes unless another module of the same
+#              name leaked in through sys.modules
+#   longpass / longfail: 30..120 statements, each with its own want (the last want of longfail is wrong)
+STATE_KINDS = ['useglobal', 'modval', 'longpass', 'longfail']
 # kinds allowed in a two-block callable (freeform merges the blocks into one doctest)
 TWO_KINDS = ['pass', 'failout', 'failexc', 'allskip', 'partskip', 'expexc', 'comment', 'failcompile', 'baddirective']
 
@@ -58,12 +65,26 @@ def n_disabled_variants():
     return 2 * len(DISABLE_FIRST_LINES)
 
 
-def block_lines(kind, variant, ident):
+def mod_token(modname):
+    return 'token of ' + modname
+
+
+def block_lines(kind, variant, ident, modname='?'):
     """lines of one doctest block (no indentation)"""
     T = lambda k: ">>> _trace('%s/%s')" % (ident, k)
     v = 'v %s' % ident
     if kind == 'pass':
         return [T('a'), ">>> print('%s')" % v, v]
+    if kind == 'useglobal':
+        return [T('a'), '>>> print(G_VERIF + 1)', '42']
+    if kind == 'modval':
+        return [T('a'), '>>> print(_modval(0))', mod_token(modname)]
+    if kind in ('longpass', 'longfail'):
+        n = 30 + 10 * (variant % 10)
+        out = [T('a')]
+        for i in range(n):
+            out += ['>>> print(%d * 3)' % i, str(i * 3 + (1 if (kind == 'longfail' and i == n - 1) else 0))]
+        return out + [T('b')]
     if kind == 'failout':
         return [T('a'), ">>> print('%s')" % v, 'w ' + ident, T('b')]
     if kind == 'failexc':
@@ -137,6 +158,14 @@ def block_outcome(kind, variant, ident, opts):
     iw = bool(opts.get('IGNORE_WANT'))
     if kind == 'pass':
         return 'P', [T('a')], False
+    if kind == 'useglobal':
+        return ('P' if opts.get('__genv__') else 'F'), [T('a')], False
+    if kind == 'modval':
+        return 'P', [T('a')], False
+    if kind == 'longpass':
+        return 'P', [T('a'), T('b')], False
+    if kind == 'longfail':
+        return ('P', [T('a'), T('b')], False) if iw else ('F', [T('a')], False)
     if kind == 'failout':
         return ('P', [T('a'), T('b')], False) if iw else ('F', [T('a')], False)
     if kind == 'failexc':
@@ -187,6 +216,14 @@ def inventory(spec, style):
         if not blocks:
             continue
         idents = ['%s:%d' % (cn, i) for i in range(len(blocks))]
+        if f.get('fmt') == 'plain':
+            # blocks written without a google `Example:` header: invisible to style=google, one merged doctest
+            # under freeform, and under auto (no google block found in THIS docstring -> freeform)
+            if style == 'google':
+                continue
+            out.append({'callname': cn, 'num': 0, 'unique': cn + ':0',
+                        'blocks': [(k, v, i) for (k, v), i in zip(blocks, idents)]})
+            continue
         if style == 'freeform' and len(blocks) > 1:
             out.append({'callname': cn, 'num': 0, 'unique': cn + ':0',
                         'blocks': [(k, v, i) for (k, v), i in zip(blocks, idents)]})
@@ -270,6 +307,7 @@ def expected_run(spec, style, cmd, opts):
 def render(spec):
     """python source of the module (google-style blocks; the same text is valid freeform)"""
     out = [HEADER]
+    out.append('def _modval(x):\n    return %r\n\n\n' % mod_token(spec['name']))
     if spec.get('import_error'):
         out.append('raise RuntimeError("this module cannot be imported")\n\n')
     cur_cls = None
@@ -292,16 +330,34 @@ def render(spec):
         if f['blocks']:
             out.append(body_ind + '"""\n')
             out.append(body_ind + 'Docstring of %s.\n\n' % cn)
+            for j in range(f.get('prose', 0)):
+                out.append(body_ind + 'Prose line %d of a very long docstring, with some words in it.\n' % j)
+            if f.get('prose'):
+                out.append('\n')
             for n, (k, v) in enumerate(f['blocks']):
-                out.append(body_ind + 'Example:\n')
-                for l in block_lines(k, v, '%s:%d' % (cn, n)):
-                    out.append(body_ind + '    ' + l + '\n')
+                if f.get('fmt') == 'plain':
+                    out.append(body_ind + 'prose before block %d\n\n' % n)
+                    for l in block_lines(k, v, '%s:%d' % (cn, n), spec['name']):
+                        out.append(body_ind + l + '\n')
+                else:
+                    out.append(body_ind + 'Example:\n')
+                    for l in block_lines(k, v, '%s:%d' % (cn, n), spec['name']):
+                        out.append(body_ind + '    ' + l + '\n')
                 out.append('\n')
             out.append(body_ind + '"""\n')
         if cls and f['name'] is None:
             out.append(body_ind + 'attr = 1\n\n')
         else:
             out.append(body_ind + 'return None\n\n')
+    if spec.get('nested'):
+        # classes nested in classes are not collected by xdoctest (neither front end): the failing doctest below
+        # must never show up
+        out.append('class Outer_verif(object):\n    class Inner(object):\n        def deep(self):\n'
+                   '            \"\"\"\n            Example:\n                >>> _trace(\'NESTED\')\n'
+                   '                >>> print(1)\n                2\n            \"\"\"\n\n'
+                   '        class Innermost(object):\n            def deeper(self):\n'
+                   '                \"\"\"\n                Example:\n                    >>> print(1)\n'
+                   '                    2\n                \"\"\"\n\n')
     return ''.join(out)
 
 
@@ -332,7 +388,7 @@ def make_spec(name, kinds_with_variants, rng=None, shapes=True):
 
 
 def random_spec(name, rng, maxlen=12, kinds=None, two_prob=0.15, nodoc_prob=0.1):
-    kinds = kinds or (KINDS + EXTRA_KINDS + EARLY_KINDS + EXIT_KINDS)
+    kinds = kinds or (KINDS + EXTRA_KINDS + EARLY_KINDS + EXIT_KINDS + STATE_KINDS)
     n = rng.randint(1, maxlen)
     items = []
     for _ in range(n):
@@ -347,7 +403,31 @@ def random_spec(name, rng, maxlen=12, kinds=None, two_prob=0.15, nodoc_prob=0.1)
     spec = make_spec(name, items, rng=rng)
     if rng.random() < 0.07:
         spec['import_error'] = True
+    for f in spec['funcs']:
+        if f['blocks'] and rng.random() < 0.12 and all(b[0] in TWO_KINDS for b in f['blocks']):
+            f['fmt'] = 'plain'       # google + freeform docstrings in one module (matters under --style=auto)
+    if rng.random() < 0.15:
+        spec['nested'] = True
     return spec
+
+
+def scale_spec(name, n, nfail, rng, nskip=0):
+    """a module with `n` one-block callables, exactly `nfail` of which fail (by output or by exception) and
+    `nskip` are all skipped, in random positions"""
+    kinds = ['failout' if i % 2 else 'failexc' for i in range(nfail)] + ['allskip'] * nskip
+    kinds += [('pass', 'expexc', 'partskip')[i % 3] for i in range(n - len(kinds))]
+    rng.shuffle(kinds)
+    return make_spec(name, [(k, rng.randrange(4)) for k in kinds], rng=rng)
+
+
+def manyblock_spec(name, nblocks, rng, prose=0):
+    """one callable with `nblocks` Example blocks (google: f0:0 .. f0:<n-1>, so `f0:1` must not match `f0:10`),
+    preceded by `prose` lines of text, plus a small second callable"""
+    simple = ['pass', 'failout', 'comment', 'partskip', 'expexc', 'failexc']
+    blocks = [[rng.choice(simple), rng.randrange(4)] for _ in range(nblocks)]
+    return {'name': name, 'funcs': [
+        {'name': 'f0', 'cls': None, 'sig': '', 'blocks': blocks, 'prose': prose},
+        {'name': 'f1', 'cls': None, 'sig': '', 'blocks': [['pass', 0]]}]}
 
 
 OPTION_SETS = [
